@@ -352,6 +352,17 @@ def check_call(case, rec):
         w = [None, "inv", A("weights", np.linspace(1, 2, 9))][case["method"] % 3]
         _call(model.fit_variogram, x, y, weights=w, sill=[None, 1.5, False][case["flag"] % 3], _tags=tags)
         sn.verify("fit_variogram")
+        if case["flag"] & 4:
+            # lat-lon model: great-circle lags laid out up to (and a little beyond) half the circumference
+            gsc = [1.0, gs.KM_SCALE, gs.DEGREE_SCALE][case["method"] % 3]
+            mll = gs.Exponential(latlon=True, geo_scale=gsc, len_scale=0.4 * gsc)
+            xl = A("latlon_lags", np.linspace(0.05, 1.1 * np.pi, 9) * gsc)
+            yl = A("latlon_vario", 1.3 * (1 - np.exp(-np.linspace(0.05, 1.1 * np.pi, 9) / 0.5)) + 0.1)
+            for nm_ in ("vario_yadrenko", "cov_yadrenko", "cor_yadrenko"):
+                _call(getattr(mll, nm_), xl, _tags=tags)
+                sn.verify(f"CovModel.{nm_}(zeta)")
+            _call(mll.fit_variogram, xl, yl, nugget=False, _tags=tags)
+            sn.verify("fit_variogram of a lat-lon model")
     elif entry == "normalizer":
         nms = [gs.normalizer.LogNormal(), gs.normalizer.BoxCox(lmbda=0.4), gs.normalizer.BoxCoxShift(lmbda=0.4, shift=0.5),
                gs.normalizer.YeoJohnson(lmbda=0.3), gs.normalizer.Modulus(lmbda=0.6), gs.normalizer.Manly(lmbda=0.2)]
